@@ -15,7 +15,7 @@ def number(ast):
                 # a let becomes visible after its initializer: number it after the initializer's nodes
                 out = {}
                 for k, v in e.items():
-                    if k != 'id':
+                    if k != 'id' and not k.startswith('_'):
                         out[k] = go(v)
                 c[0] += 1
                 out['id'] = c[0]
@@ -23,7 +23,7 @@ def number(ast):
             c[0] += 1
             out = {'id': c[0]}
             for k, v in e.items():
-                if k != 'id':
+                if k != 'id' and not k.startswith('_'):
                     out[k] = go(v)
             return out
         if isinstance(e, list):
